@@ -4,9 +4,21 @@
   (Stateless commands only; stateful ones live in Driver.lean.)
 -/
 import PyTealV.Util
+import PyTealV.Cmd.C17
+import PyTealV.Cmd.C10
+import PyTealV.Cmd.C13
 namespace PyTealV.Cmd
 
 def extraCommands : List (String × (List String → String)) := [
+  ("c17-validate", C17.validate),
+  ("c17-initcheck", C17.initcheck),
+  ("c10-assign", C10.assign),
+  ("c10-collect", C10.collect),
+  ("c10-alloc", C10.alloc),
+  ("c13-escape", C13.escape), ("c13-bytes", C13.bytes), ("c13-denote", C13.denote),
+  ("c13-int", C13.int), ("c13-addr", C13.addr), ("c13-method", C13.method),
+  ("c13-valid", C13.valid), ("c13-pad32", C13.pad32), ("c13-rfc", C13.rfc),
+  ("c13-parseline", C13.parseline)
 ]
 
 def dispatch (cmd : String) (args : List String) : Option String :=
